@@ -39,6 +39,10 @@ def run(ck):
         elif r["hash"] != v["hash"]:
             ck.report("C02:gen:hash:" + v["kind"], "Hash() of parsed root differs from the specification: want %s got %s" % (v["hash"], r["hash"]),
                       {"kind": "gen", "vector": v, "got": r})
+        elif r.get("rt"):
+            # "... or on how the cell was obtained": the parsed DAG written by the library itself (8 option combinations) and parsed again
+            ck.report("C02:gen:reserialised:" + v["kind"], "hash / structure of a %s DAG (root mask %s) changes when the library serialises and parses it again: %s"
+                      % (v["kind"], v["level"], "; ".join(x[:140] for x in r["rt"][:2])), {"kind": "gen", "vector": v, "got": r})
         elif r["level"] != v["level"]:
             ck.report("C02:gen:level:" + v["kind"], "Level() differs: want %d got %d" % (v["level"], r["level"]), {"kind": "gen", "vector": v, "got": r})
         else:
